@@ -192,10 +192,11 @@ Proof. exact sqrtprec_ok_sound. Qed.
 Print Assumptions C06_sqrtprec_check_sound.
 
 (* ... and the per-transition certificate, at tolerance 0, is the hypothesis "the returned point satisfies the
-   normal equations" itself (the harness evaluates it at 1e-8 on floats: rounding is not modelled) *)
+   normal equations" itself (the harness evaluates it at 1e-8 RELATIVE to the right-hand side / the initial normal
+   residual of the solver, on floats: rounding is not modelled) *)
 Theorem C06_draw_check_sound :
-  forall (n : nat) (ls : list (list (list Qc) * list (list Qc) * list Qc)) (pr : prior Qc) (e x : list Qc),
-  check_draw 0 n ls pr e x = true -> normal_eq Qc 0%Qc Qcplus Qcmult n (mk_liks n ls) pr e x.
+  forall (n : nat) (ls : list (list (list Qc) * list (list Qc) * list Qc)) (pr : prior Qc) (xcur e x : list Qc),
+  check_draw 0 n ls pr xcur e x = true -> normal_eq Qc 0%Qc Qcplus Qcmult n (mk_liks n ls) pr e x.
 Proof. exact check_draw_sound. Qed.
 Print Assumptions C06_draw_check_sound.
 
